@@ -84,7 +84,12 @@ Step(tags, ks, kind) ==
 \* the library returned from an earlier call in the same case)
 Modified(ev) == (IF ev.post.k # "SAME" THEN {"C18:packet_modified"} ELSE {})
                 \cup (IF "memsame" \in DOMAIN ev /\ ~ev.memsame THEN {"C18:caller_memory_written"} ELSE {})
-InputMod(ev) == IF ~ev.bufsame THEN {"C18:input_modified"} ELSE {}
+\* bufsame = FALSE: the input octets, or the memory behind them (the slice's spare capacity), were written;
+\* tailsame = FALSE: the same octets with other memory behind them decode differently
+InputMod(ev) == (IF ~ev.bufsame THEN {"C18:input_modified"} ELSE {})
+                \cup (IF "tailsame" \in DOMAIN ev /\ ~ev.tailsame
+                      THEN {"C18:decode_depends_on_memory_beyond_input"} \cup (IF ev.op = "datagram" THEN {"C06:depends_on_octets_outside_datagram"} ELSE {})
+                      ELSE {})
 
 TrBuild ==
   /\ e.op = "build" /\ Build(e.h, e.v)
